@@ -1,6 +1,7 @@
 import Rfsm.Audit
 import Rfsm.Proofs.ReachLemmas
 import Rfsm.Proofs.TreeLemmas
+import Rfsm.Proofs.RootLemmas
 /-!
 # C01 — The active configuration is always a legal SCXML state configuration
 
@@ -162,6 +163,29 @@ theorem C01_root_active (env : Env σ) (d : Doc) (hroot : parentOf d d.root = 0)
     exact C01_root_stays_active env d hroot _ _ (by rw [hsc.1]; exact ih)
 #assert_axioms C01_root_active
 
+/-- **the root is active in every reachable session** of every conformant document that has at
+    least one state and whose first top-level initial target is a proper state (not a history
+    pseudo-state): the start-up entry set contains the root (`computeEntrySet_root`: the initial
+    transition starts at the root, so its domain is "no state" and `addAncestorStatesToEnter` walks
+    up to and including the root) and no microstep exits it. -/
+theorem C01_root_active_conformant (env : Env σ) (d : Doc) (hc : conformantB d = true)
+    (hk : (getState d d.root).kids ≠ [])
+    (hnh : ∀ t0 ts', (getTrans d (getState d d.root).initial).target = t0 :: ts' → isHistoryState d t0 = false)
+    (s : Sess σ) (hr : Reach env d s) : d.root ∈ s.cfg := by
+  have ht := conformant_treeLike hc
+  obtain ⟨hi, hsrc, hne, hdesc⟩ := conformant_root_initial hc hk
+  refine C01_root_active env d ht.rootParent ?_ s hr
+  have hri : rootInit d = [(getState d d.root).initial] := by
+    unfold rootInit
+    simp [hi]
+  rw [hri]
+  cases htg : (getTrans d (getState d d.root).initial).target with
+  | nil => exact absurd htg hne
+  | cons t0 ts' =>
+    exact computeEntrySet_root ht _ t0 ts' hsrc htg (hnh t0 ts' htg)
+      (hdesc t0 (by rw [htg]; exact List.mem_cons_self)) []
+#assert_axioms C01_root_active_conformant
+
 /-- **no state is exited while a state below it is still active**: in the order in which
     `exitStates` processes the exit set (reverse document order, `C02_exit_order`), every exited
     descendant of a state stands before that state — together with `C01_exit_descendant_closed`:
@@ -184,7 +208,8 @@ theorem C01_exit_descendants_first (d : Doc) (hc : conformantB d = true) (hv : T
     never contains a history pseudo-state; the exit set is closed under active descendants, so the
     states that stay active keep an active parent (`C01_exit_descendant_closed`,
     `C01_kept_parent_active`), and descendants are exited before their ancestors
-    (`C01_exit_descendants_first`).
+    (`C01_exit_descendants_first`); the root is active in every reachable session
+    (`C01_root_active_conformant`, first clause of `legalB`).
     **Missing** for `C01_full`: (i) for the *entered* states the clause "every active state's parent
     is active", and the clauses "exactly one active child of a compound state / of the root", "all
     children of an active parallel state are active" of `legalB`, and (ii) "no state is entered
@@ -229,7 +254,9 @@ example : conformantB exDoc1 = true := by decide
 example : legalB exDoc1 [1, 2, 3, 4, 5, 6] = true := by decide
 example : legalB exDoc1 [1, 2, 3, 4] = false := by decide      -- a parallel child is missing
 example : (computeEntrySet exDoc1 [] [20]).toEnter = [2, 3, 4, 5, 6, 1] := by decide
--- hypotheses of C01_root_active for exDoc1
+-- hypotheses of C01_root_active / C01_root_active_conformant for exDoc1
+example : (getState exDoc1 exDoc1.root).kids ≠ [] ∧ (getTrans exDoc1 (getState exDoc1 exDoc1.root).initial).target = [2] ∧
+    isHistoryState exDoc1 2 = false := by decide
 example : parentOf exDoc1 exDoc1.root = 0 ∧ exDoc1.root ∈ (computeEntrySet exDoc1 [] (rootInit exDoc1)).toEnter := by decide
 -- hypotheses of C01_exit_descendant_closed: transition 10 (4 → 7) exits the parallel 2 and, with it, 6 below it
 example : 2 ∈ computeExitSet exDoc1 [] [1, 2, 3, 4, 5, 6] [10] ∧ isDescendant exDoc1 6 2 = true ∧
